@@ -176,7 +176,7 @@ def run(ctx, props, mine, known, names, what):
     own = [m for m in mon if m[2] in mine or m[2] in known]
     cov.update({
         "evaluations": rep["steps"], "distinct_nontrivial": rep["distinct_cases"],
-        "rule": "whole-application runs (real app.App through ABCI, Replica): replays of the recorded findings (all fixed: expected to HOLD) + 18 witnesses (incl. envelopes carrying a VICTIM's public key (secp256k1 and ed25519 victims), unchanged and relabelled as every other key algorithm, with junk / empty signature bytes; OLVM creations at addresses funded in advance by native SENDs (no / with endowment, reverting init code, self-destruct pay-out, inner CREATE and CREATE2 of a factory); wrapped ETH on the 'eth' genesis variant: lock -> reports -> mint, a redeem that succeeds, a redeem that fails and is refunded, crafted redeems with the redeem(uint256) selector in the gas price / nonce / value field or twice in the call data; bid amounts (negative / zero / further offer / counter offer / expiry by a third party); an OLVM contract whose call clears a storage slot (SSTORE refund), reverts, carries value; stakingOptions.maturityTime lowered by a finalised configuration proposal between one validator's unstake and two same-block unstakes of another, both address orders; a reward withdrawal that matures while the delegation pool is empty, with and without a CheckTx as the last call before each block; a transaction refused in the fee step after its handler ran, followed at once by a spend from the account it had credited; several unstakes of one delegator in one block through maturity and withdrawal; a self-staking candidate with a foreign public key + junk in signature slot 0) + the 5 directed "
+        "rule": "whole-application runs (real app.App through ABCI, Replica): replays of the recorded findings (all fixed: expected to HOLD) + 19 witnesses (incl. both roles of a two-party kind being ONE account (the owner buys its own name on sale, SEND to self, DOMAIN_SEND to the own name, withdrawal with beneficiary = funder, bid on the own asset, delegation by a validator's stake account) and a purchase whose `account` names a third funded account; envelopes carrying a VICTIM's public key (secp256k1 and ed25519 victims), unchanged and relabelled as every other key algorithm, with junk / empty signature bytes; OLVM creations at addresses funded in advance by native SENDs (no / with endowment, reverting init code, self-destruct pay-out, inner CREATE and CREATE2 of a factory); wrapped ETH on the 'eth' genesis variant: lock -> reports -> mint, a redeem that succeeds, a redeem that fails and is refunded, crafted redeems with the redeem(uint256) selector in the gas price / nonce / value field or twice in the call data; bid amounts (negative / zero / further offer / counter offer / expiry by a third party); an OLVM contract whose call clears a storage slot (SSTORE refund), reverts, carries value; stakingOptions.maturityTime lowered by a finalised configuration proposal between one validator's unstake and two same-block unstakes of another, both address orders; a reward withdrawal that matures while the delegation pool is empty, with and without a CheckTx as the last call before each block; a transaction refused in the fee step after its handler ran, followed at once by a spend from the account it had credited; several unstakes of one delegator in one block through maturity and withdrawal; a self-staking candidate with a foreign public key + junk in signature slot 0) + the 5 directed "
                 "scenarios + adversarial-amount histories (25 value-moving kinds incl. BID_CREATE / further offer / counter offer, incl. self-staked STAKE/UNSTAKE/WITHDRAW; per kind also a pair 'refused in the fee step (gas limit 1) after a successful handler / SEND by the account it touched last of more than, and of nearly all, it owns', forged envelopes naming a secp256k1 / ed25519 victim as the source with the victim's public key in slot 0 (unchanged / relabelled ed25519, secp256k1, btcecsecp, ethsecp x junk / empty / another transaction's genuine signature) for 13 spending kinds, and signature lists with a foreign key + junk in the first / last slot at a high fee price; x amounts {-2^64,-1,0,1,base-1,base,base+1,2^63-1,2^63,2^64-2,2^64,"
                 "2^64+1,10^40} relative to the observed source record x currencies {OLT,ETH,unregistered,empty}; every address field replaced by "
                 "other accounts, signed by the rightful signers / the attacker / the named account) + seeded random histories over ~35 kinds incl. OLVM "
